@@ -50,6 +50,7 @@ def run(repo, tier):
     r.rule("R15.5", "mpf2float's underflow/overflow results carry the sign: the negative arm is a float negative zero / negative infinity", floor=2)
     r.rule("R15.6", "mpf2float's underflow and overflow tests read the exponent and bit count of the value rounded to the target precision, on every path", floor=2)
     r.rule("R15.9", "mpf2float rounds once: the precision of the rounding step depends on how many bits the format offers at the exponent of the value (subnormal results)", floor=1)
+    r.rule("R15.11", "the evaluation context of a backend call is fixed by the first float argument and not overwritten by later ones", floor=1)
     r.rule("R15.10", "mpf2float hands the raw fields of the caller's own value to the rounding step (no copy through the context, which would round to the working precision first)", floor=1)
     r.rule("R15.8", "mpf2float thresholds derived per format and flush flag from the range tests as they are (operator, table, offsets): infinity exactly from exp + bc = emax + 2, zero up to half the smallest subnormal (no flush) or exactly below the smallest normal (flush)", floor=9)
     r.rule("R15.4", "mpf2float reads IEEE-correct exponent tables; zero is returned below a threshold, infinity above one", floor=13)
@@ -250,6 +251,7 @@ def run(repo, tier):
     check_thresholds_derived(r, repo, mf, rtests)
     check_single_rounding(r, repo, mf)
     check_unrounded_input(r, repo, mf)
+    check_evaluation_context(r, repo)
     # ------------------------------------------------------------------ R15.7 wrapper caches
     # The numpy_with_* namespaces cache the vectorised wrapper they build with **self.params under a key: the key must determine
     # everything the wrapper is built from - the name and the whole of self.params - or a namespace with other options is handed
@@ -376,6 +378,65 @@ def check_unrounded_input(r, repo, mf, rule="R15.10"):
                      + ": a copy made through the context is rounded to the context's working precision first, so a value with more bits than that is rounded twice", loc(REL, c))
     if n == 0:
         raise AnalysisError("mpf2float: no call of _normalize found on any path")
+
+
+def check_evaluation_context(r, repo, rule="R15.11"):
+    """vectorize_with_backend.__call__ evaluates the function inside backend_context(<context>), where <context> is derived from
+    an argument; the result is converted back in the type of the first float argument, so it is that argument's context whose
+    precision has to carry the requested extra precision.  On every path through the argument loop (two iterations unrolled)
+    the context variable is assigned from an argument at most once: the first float argument decides and later ones do not
+    overwrite it (with mixed float types the evaluation would otherwise run at the bare precision of the result type)."""
+    from sa.paths import enumerate_paths
+
+    f = repo.func(REL, "vectorize_with_backend.__call__")
+    cvars = set()
+    for w in [x for x in ast.walk(f) if isinstance(x, ast.With)]:
+        inside_loop = any(isinstance(a, (ast.For, ast.While)) for a in _anc(w, f))
+        for it in w.items:
+            c = it.context_expr
+            if isinstance(c, ast.Call) and (dotted(c.func) or "").endswith("backend_context") and c.args and isinstance(c.args[0], ast.Name) and not inside_loop:
+                cvars.add(c.args[0].id)
+    if len(cvars) != 1:
+        raise AnalysisError(f"vectorize_with_backend.__call__: the evaluation `with self.backend_context(<name>)` was not found ({sorted(cvars)})")
+    cv = next(iter(cvars))
+    worst = 0
+    n_paths = 0
+    for p in enumerate_paths(f, unroll=(2,), limit=50000):
+        cnt = 0
+        is_none = None  # what is known about `cv is None` along the path
+        feasible = True
+        for e in p.events:
+            if e.kind == "stmt" and isinstance(e.node, ast.Assign) and any(isinstance(t, ast.Name) and t.id == cv for t in e.node.targets):
+                if isinstance(e.node.value, ast.Constant) and e.node.value.value is None:
+                    is_none = True
+                else:
+                    cnt += 1
+                    is_none = False
+            elif e.kind == "test" and isinstance(e.node, ast.Compare) and len(e.node.ops) == 1 and isinstance(e.node.ops[0], (ast.Is, ast.IsNot)) \
+                    and isinstance(e.node.left, ast.Name) and e.node.left.id == cv and isinstance(e.node.comparators[0], ast.Constant) and e.node.comparators[0].value is None:
+                holds = e.pol if isinstance(e.node.ops[0], ast.Is) else not e.pol  # the path claims `cv is None` == holds
+                if is_none is not None and holds != is_none:
+                    feasible = False
+                    break
+        if not feasible:
+            continue
+        n_paths += 1
+        worst = max(worst, cnt)
+    if n_paths == 0:
+        raise AnalysisError("vectorize_with_backend.__call__: no path enumerated")
+    r.ob(rule, f"{REL}::vectorize_with_backend.__call__ evaluation context is the first float argument's", worst <= 1,
+         f"on a path with two float arguments `{cv}` is assigned {worst} times: the last argument's context replaces the first one's, while the result is converted in the "
+         "first argument's type - for arguments of different float types the function is then evaluated without the extra precision that type was given", loc(REL, f),
+         sample=dict(rule=rule, paths=n_paths, max_assignments=worst))
+
+
+def _anc(node, stop):
+    out = []
+    n = getattr(node, "_parent", None)
+    while n is not None and n is not stop:
+        out.append(n)
+        n = getattr(n, "_parent", None)
+    return out
 
 
 class _RawField(Exception):
